@@ -2,7 +2,7 @@
 # usage: harness/confirm_seed.sh <prop> <i> [name]  -- confirm seeded change i of /tmp/m/<prop>/out in the scratch worktree
 # /tmp/m/<prop>/repo (suite still passes with the patch, demo fails with it and passes without), run the check against it
 # in /repo (apply, check, revert), and file it under /verif/seeded/<prop>-<i>/.
-prop="$1"; i="$2"; base=/tmp/m/$prop; wt=$base/repo; out=$base/out
+prop="$1"; i="$2"; base=${MBASE:-/tmp/m}/$prop; wt=$base/repo; out=$base/out
 dest=/verif/seeded/$prop-${3:-$i}
 cd "$wt" || exit 2
 git checkout -q -- . ; git apply "$out/patch_$i.diff" || { echo "patch does not apply"; exit 2; }
